@@ -142,7 +142,7 @@ def _case(check: Check, case, record=False):
 
         # ground companion (NOT solver-decided): the same label oracle at one generic point through the branches symbolic cells
         # cannot reach - numeric data as DataFrame columns (Series branch of the encoders), sparse output, narwhals materializer
-        if out == "pandas":
+        if out == "pandas" and (check.tier != "thorough" or zlib.crc32(("G" + ident).encode()) % 24 == 0):  # (thorough has ~200 000 configurations: a 1-in-24 slice of them)
             base = {"kind": "c02_matrix", "formula": formula, "efr": efr, "layout": layout, "terms": [[list(t.factors), list(t.lits)] for t in fam],
                     "a": [float(i) * 1.25 + 0.5 for i in range(n)], "b": [(float(3 * i + 1) % 7) * 0.75 - 1.3 for i in range(n)]}
             other = "permuted" if index != "permuted" else "nonunique"
